@@ -243,6 +243,20 @@ def run(ctx):
                             p.get('kind') in ('CStyleCastExpr', 'CXXStaticCastExpr', 'CXXFunctionalCastExpr') and
                             (dtype(p) or qtype(p)) == 'void')):
                         p = p.get('_p')         # (void)f(..) / static_cast<void>(f(..)): the result is discarded
+                    while p is not None and p.get('kind') in ('ImplicitCastExpr',):
+                        p = p.get('_p')
+                    if p is not None and p.get('kind') == 'VarDecl':
+                        # the result is named: fine as long as the name is only ever discarded
+                        uses = [y for y in walk(f) if y.get('kind') == 'DeclRefExpr' and (y.get('referencedDecl') or {}).get('id') == p.get('id')]
+
+                        def discarded(y):
+                            q = y.get('_p')
+                            while q is not None and q.get('kind') in ('ImplicitCastExpr', 'ParenExpr'):
+                                q = q.get('_p')
+                            return q is not None and q.get('kind') in ('CStyleCastExpr', 'CXXStaticCastExpr', 'CXXFunctionalCastExpr') and \
+                                (dtype(q) or qtype(q)) == 'void'
+                        if all(discarded(y) for y in uses):
+                            p = None
                     if p is not None and p.get('kind') not in ('CompoundStmt',):
                         good = False
                         why = 'the result of load_time_zone is used: the fallback-to-UTC value it stored may be replaced'
